@@ -2,6 +2,7 @@ package unpack
 
 import (
 	"fmt"
+	"math"
 	"reflect"
 	"regexp"
 	"sort"
@@ -86,7 +87,7 @@ func (g *gen) genStruct(depth int) *Struct {
 		}
 		f.Kind = k
 		switch k {
-		case KStruct, KPStruct, KSStruct, KMStruct:
+		case KStruct, KPStruct, KSStruct, KMStruct, KAStruct:
 			f.Sub = g.genStruct(depth + 1)
 		case KInline:
 			f.Sub = g.genStruct(depth + 1)
@@ -146,6 +147,15 @@ func (g *gen) genCase(s *Struct, path string, depth int) *StructCase {
 			fc.Sub = g.genCase(f.Sub, fc.Path, depth+1)
 			if fc.Sub.hasRequired() {
 				fc.Mention = true
+			}
+		case KAStruct:
+			// the elements exist before the call, pre-filled field by field like a struct field
+			for i := 0; i < 2; i++ {
+				el := g.genCase(f.Sub, join(fc.Path, itoa(i)), depth+1)
+				fc.Elems = append(fc.Elems, el)
+				if el.hasRequired() {
+					fc.Mention = true
+				}
 			}
 		case KSStruct:
 			fc.Pre = false
@@ -240,6 +250,15 @@ func (fc *FieldCase) rawInput() interface{} {
 	switch fc.F.Kind {
 	case KInt, KInt8, KUint16, KPInt, KVInt, KUInt, KPI, KUUint:
 		return uint64(10 + n%80)
+	case KU64:
+		if n%5 == 0 {
+			return uint64(math.MaxUint64)
+		}
+		return uint64(10 + n%80)
+	case KSSVInt:
+		return []interface{}{[]interface{}{uint64(10 + n%80), uint64(11 + n%80)}}
+	case KMSVInt:
+		return map[string]interface{}{"p": []interface{}{uint64(10 + n%80)}, "q": []interface{}{uint64(11 + n%80)}}
 	case KF64, KUFloat, KF32:
 		return float64(n) + 0.5
 	case KStr, KPStr, KVStr, KUStr:
@@ -310,7 +329,7 @@ func (fc *FieldCase) rawInput() interface{} {
 		return map[string]interface{}{"x": uint64(10 + n%80), "y": "s" + itoa(n)}
 	case KStruct, KPStruct:
 		return fc.Sub.input()
-	case KSStruct:
+	case KSStruct, KAStruct:
 		var l []interface{}
 		for _, e := range fc.Elems {
 			l = append(l, e.input())
@@ -332,7 +351,7 @@ func (fc *FieldCase) rawInput() interface{} {
 // boundable: kinds whose fields may carry a built-in validator with a value-level meaning.
 func boundable(k Kind) bool {
 	switch k {
-	case KInt, KInt8, KUint16, KF64, KF32, KStr, KDur, KPInt, KPStr, KVInt, KPI, KPDur:
+	case KInt, KInt8, KUint16, KF64, KF32, KStr, KDur, KPInt, KPStr, KVInt, KPI, KPDur, KU64:
 		return true
 	}
 	return false
@@ -348,6 +367,11 @@ func (sc *StructCase) prefill(v reflect.Value) {
 		switch fc.F.Kind {
 		case KInline, KStruct:
 			fc.Sub.prefill(f)
+			continue
+		case KAStruct:
+			for j, el := range fc.Elems {
+				el.prefill(f.Index(j))
+			}
 			continue
 		case KPStruct:
 			if fc.Pre {
@@ -376,6 +400,12 @@ func (sc *StructCase) prefill(v reflect.Value) {
 			f.SetInt(num)
 		case KUint16:
 			f.SetUint(uint64([]int64{5, 0, 5}[fc.PreVar]))
+		case KU64:
+			f.SetUint([]uint64{5, 0, 1<<63 + 5}[fc.PreVar])
+		case KSSVInt:
+			f.Set(reflect.ValueOf([][]VInt{{91, 92}, {93}}))
+		case KMSVInt:
+			f.Set(reflect.ValueOf(map[string][]VInt{"p": {94}, "z": {95, 96}}))
 		case KF64, KF32:
 			f.SetFloat([]float64{5.5, 0, -5.5}[fc.PreVar])
 		case KStr:
@@ -514,6 +544,14 @@ func (sc *StructCase) apply(v reflect.Value, present bool) {
 		case KStruct:
 			fc.Sub.apply(f, mentioned)
 			continue
+		case KAStruct:
+			// the settings are merged into the elements the array holds; without a setting nothing is touched
+			if mentioned {
+				for j, el := range fc.Elems {
+					el.apply(f.Index(j), true)
+				}
+			}
+			continue
 		case KPStruct:
 			switch {
 			case !mentioned:
@@ -557,8 +595,46 @@ func (sc *StructCase) apply(v reflect.Value, present bool) {
 		switch fc.F.Kind {
 		case KInt, KInt8, KVInt:
 			f.SetInt(int64(in.(uint64)))
-		case KUint16:
+		case KUint16, KU64:
 			f.SetUint(in.(uint64))
+		case KSSVInt:
+			old := f
+			var nw [][]VInt
+			for _, x := range in.([]interface{}) {
+				var l []VInt
+				for _, y := range ints(x) {
+					l = append(l, VInt(y))
+				}
+				nw = append(nw, l)
+			}
+			// index-wise at both levels, the longer tails survive
+			out := [][]VInt{}
+			for i := 0; i < old.Len() || i < len(nw); i++ {
+				switch {
+				case i >= len(nw):
+					out = append(out, old.Index(i).Interface().([]VInt))
+				case i >= old.Len():
+					out = append(out, nw[i])
+				default:
+					out = append(out, combine("", old.Index(i), reflect.ValueOf(nw[i])).Interface().([]VInt))
+				}
+			}
+			f.Set(reflect.ValueOf(out))
+		case KMSVInt:
+			m := map[string][]VInt{}
+			if !f.IsNil() {
+				for _, k := range f.MapKeys() {
+					m[k.String()] = f.MapIndex(k).Interface().([]VInt)
+				}
+			}
+			for k, x := range in.(map[string]interface{}) {
+				var l []VInt
+				for _, y := range ints(x) {
+					l = append(l, VInt(y))
+				}
+				m[k] = combine("", reflect.ValueOf(m[k]), reflect.ValueOf(l)).Interface().([]VInt)
+			}
+			f.Set(reflect.ValueOf(m))
 		case KF64, KF32:
 			f.SetFloat(in.(float64))
 		case KStr, KVStr:
@@ -770,6 +846,13 @@ func (sc *StructCase) hasRequired() bool {
 		}
 		if (fc.F.Kind == KStruct || fc.F.Kind == KInline || (fc.F.Kind == KPStruct && fc.Pre)) && fc.Sub.hasRequired() {
 			return true
+		}
+		if fc.F.Kind == KAStruct {
+			for _, el := range fc.Elems {
+				if el.hasRequired() {
+					return true
+				}
+			}
 		}
 	}
 	return false
